@@ -55,8 +55,8 @@ SPECS = [
     ("NETCODE_ADDRESS_IPV6", "renetcode/src/lib.rs", r"const NETCODE_ADDRESS_IPV6: u8 = ([0-9_]+);"),
     ("NETCODE_TOKEN_MAX_ADDRESSES", "renetcode/src/token.rs", r"pub server_addresses: \[Option<SocketAddr>; ([0-9_]+)\],"),
     ("NETCODE_GLOBAL_SEQUENCE_START_SHIFT", "renetcode/src/server.rs", r"global_sequence: 1 << ([0-9_]+),"),
-    ("TRANSPORT_SERVER_BUFFER", "renet_netcode/src/server.rs", r"buffer: \[0; (NETCODE_MAX_PACKET_BYTES)\],", "sym"),
-    ("TRANSPORT_CLIENT_BUFFER", "renet_netcode/src/client.rs", r"buffer: \[0u8; (NETCODE_MAX_PACKET_BYTES)\],", "sym"),
+    ("TRANSPORT_SERVER_BUFFER", "renet_netcode/src/server.rs", r"buffer: \[0(?:u8)?; ([A-Za-z_0-9]+)\],", "sym"),
+    ("TRANSPORT_CLIENT_BUFFER", "renet_netcode/src/client.rs", r"buffer: \[0(?:u8)?; ([A-Za-z_0-9]+)\],", "sym"),
 ]
 
 def main():
@@ -78,7 +78,7 @@ def main():
             errors.append(f"{name}: pattern matches different values in {path}: {m}")
             continue
         if mult == "sym":
-            vals[name] = vals.get(m[0])
+            vals[name] = int(m[0].replace("_", "")) if re.fullmatch(r"[0-9_]+", m[0]) else vals.get(m[0])
             if vals[name] is None:
                 errors.append(f"{name}: symbolic value {m[0]} unknown")
         else:
